@@ -8,6 +8,7 @@ import PhpVerif.Spec.Precedence
 import PhpVerif.Model.Pratt
 import PhpVerif.Model.Render
 import PhpVerif.Props.C15
+import PhpVerif.Props.C16
 import PhpVerif.Gen.FmtCode
 import PhpVerif.Gen.ResolverCode
 import PhpVerif.Gen.TraverserTab
@@ -129,14 +130,24 @@ def pHexes : Nat → List String → Option (List Bytes × List String)
       pure (b :: bs, r')
   | _, [] => none
 
-/-- with ids: every hex word is preceded by the decimal token id -/
+/-- position word: `p-` (nil) or `p<startLine>:<endLine>:<startPos>:<endPos>` -/
+def pPos (w : String) : Option (Option Pos) :=
+  if w == "p-" then some none
+  else if w.startsWith "p" then
+    match ((w.drop 1).toString.splitOn ":").map String.toInt? with
+    | [some a, some b, some c, some d] => some (some { startLine := a, endLine := b, startPos := c, endPos := d })
+    | _ => none
+  else none
+
+/-- with ids: every hex word is preceded by the decimal token id and followed by the position word -/
 def pIdHexes : Nat → List String → Option (List FF × List String)
   | 0, r => some ([], r)
-  | n + 1, i :: w :: r => do
+  | n + 1, i :: w :: pw :: r => do
       let i ← i.toNat?
       let b ← pHex w
+      let ps ← pPos pw
       let (bs, r') ← pIdHexes n r
-      pure ({ id := i, val := b } :: bs, r')
+      pure ({ id := i, val := b, pos := ps } :: bs, r')
   | _, _ => none
 
 def pTok (ids : Bool) : List String → Option (Tok × List String)
@@ -145,10 +156,11 @@ def pTok (ids : Bool) : List String → Option (Tok × List String)
       if ids then
         let (ffs, r1) ← pIdHexes n r
         match r1 with
-        | i :: v :: r2 => do
+        | i :: v :: pw :: r2 => do
             let i ← i.toNat?
             let v ← pHex v
-            pure ({ uid := 0, id := i, val := v, ff := ffs }, r2)
+            let ps ← pPos pw
+            pure ({ uid := 0, id := i, val := v, ff := ffs, pos := ps }, r2)
         | _ => none
       else
         let (ffs, r1) ← pHexes n r
@@ -171,8 +183,12 @@ partial def pTree (ids : Bool) : List String → Option (Tree × List String)
   | "N" :: k :: nf :: r => do
       let k ← k.toNat?
       let nf ← nf.toNat?
-      let (fs, r1) ← pFields ids nf {} r
-      pure (.mk k 0 none fs.toks fs.vals fs.kids fs.nn, r1)
+      -- with ids the node's position word follows
+      let (ps, r0) ← (if ids then (match r with
+        | pw :: r' => (pPos pw).map (fun p => (p, r'))
+        | [] => none) else some (none, r))
+      let (fs, r1) ← pFields ids nf {} r0
+      pure (.mk k 0 ps fs.toks fs.vals fs.kids fs.nn, r1)
   | _ => none
 partial def pFields (ids : Bool) : Nat → Fields → List String → Option (Fields × List String)
   | 0, acc, r => some (acc, r)
@@ -180,6 +196,7 @@ partial def pFields (ids : Bool) : Nat → Fields → List String → Option (Fi
       match w with
       | "_" => pFields ids n (acc.push [] none [] false) r
       | "t0" => pFields ids n (acc.push [] none [] false) r
+      | "Tn" => pFields ids n (acc.push [] none [] false) r      -- nil token slice
       | "t1" => do
           let (t, r1) ← pTok ids r
           pFields ids n (acc.push [t] none [] false) r1
@@ -187,7 +204,7 @@ partial def pFields (ids : Bool) : Nat → Fields → List String → Option (Fi
           | c :: r0 => do
               let c ← c.toNat?
               let (ts, r1) ← pToks ids c r0
-              pFields ids n (acc.push ts none [] false) r1
+              pFields ids n (acc.push ts none [] true) r1
           | [] => none
       | "v0" => pFields ids n (acc.push [] none [] false) r
       | "v1" => match r with
@@ -259,6 +276,20 @@ def runNsrTree (t : Tree) : String :=
     let m := (NsrT.finalMap out).map (fun e => (pathStr e.1, toHex e.2))
     let sorted := m.toArray.qsort (fun a b => a.1 < b.1)
     if sorted.isEmpty then "-" else ";".intercalate (sorted.toList.map (fun e => e.1 ++ "=" ++ e.2))
+
+/-! `dump <t><p> <tree with ids and positions>`: the dumper model's event list (t / p = with tokens / positions) -/
+def dumpCfgReal : DumpCfg := C16.realCfg Gen.dumpLblFF Gen.dumpLblID
+
+def evStr : DEv → String
+  | .openNode k => "O" ++ toString k
+  | .close => "C"
+  | .label l => "L" ++ toString l
+  | .posv p => "P" ++ toString p.startLine ++ "," ++ toString p.endLine ++ "," ++ toString p.startPos ++ "," ++ toString p.endPos
+  | .tokOpen => "T"
+  | .tokId id => "I" ++ toString id
+  | .valv b => "V" ++ toHex b
+  | .listOpen isTok => if isTok then "LO1" else "LO0"
+  | .emptyList isTok => if isTok then "E1" else "E0"
 
 def litBytes (id : Nat) : Bytes :=
   match Gen.printerLits.find? (·.1 == id) with
@@ -471,6 +502,12 @@ def handle (ws : List String) : String :=
     match m.toNat? with
     | some m => natsStr (NL.lineStarts (unhex h) m)
     | none => "bad-op"
+  | ["dump", o, enc] =>
+    match pTree true (enc.splitOn ",") with
+    | some (t, []) =>
+      let opts : DumpOpts := { withTokens := (o.take 1).toString == "1", withPositions := (o.drop 1).toString == "1" }
+      " ".intercalate ((dump dumpCfgReal opts t).map evStr)
+    | _ => "bad-op"
   | ["nsrtree", enc] =>
     match pTree false (enc.splitOn ",") with
     | some (t, []) => runNsrTree t
